@@ -152,7 +152,7 @@ impl Repository {
         }
 
         let name = String::from(path.file_stem()?.to_str()?);
-        let expansion_number = name[2..3].parse().ok()?;
+        let expansion_number = name.get(2..3)?.parse().ok()?;
 
         let mut d = PathBuf::from(dir);
         d.push(format!("{name}.ver"));
